@@ -425,25 +425,10 @@ func writeDkvStubs(dir string, ops []string, ids []uint64) {
 	}
 }
 
-// storeErrs receives what the stores report on their ErrChan (failed publications).
-var storeErrs = make(chan error, 1024)
-
-func lastStoreErr() string {
-	msg := "none"
-	for {
-		select {
-		case e := <-storeErrs:
-			msg = e.Error()
-		default:
-			return msg
-		}
-	}
-}
-
 func newStore(loc locations.StorageLocation, retained chan []uint64, events chan string, spl *splitter) *snapshots.Store {
 	st := snapshots.NewStore(&snapshots.NewStoreParams{
 		FileStore: loc, SavepointsPath: "savepoints", CheckpointsPath: "checkpoints",
-		CheckpointEvents: events, ErrChan: storeErrs, RetainedCheckpointsUpdated: retained,
+		CheckpointEvents: events, ErrChan: make(chan error, 64), RetainedCheckpointsUpdated: retained,
 	})
 	st.RegisterSourceSplitter(spl)
 	return st
@@ -1136,7 +1121,7 @@ func (r *run) step(st mbt.Step) error {
 			if len(inc.parked) > 0 {
 				return errSerialised // the publication waits for the lock the parked acknowledgement holds
 			}
-			return driftf("PublishWrite(%d): publication did not finish (the store's last error: %s)", id, lastStoreErr())
+			return driftf("PublishWrite(%d): publication did not finish (a failed publication is silent: the store's errChan is never set)", id)
 		}
 	case "PublishDelete":
 		want := sortedU(u64s(st["ids"]))
